@@ -40,6 +40,8 @@ var _ rpc.Resources
 //@ define predLower(b byte) byte = ite('A' <= b && b <= 'Z', b + 32, b)
 
 // predOriginEq(s, o): s equals o with ASCII upper case letters of o lowered.
+// s contains no upper-case ASCII letter (it is its own ASCII-lowercase form).
+//@ define predLowered(s string) bool = forall k int :: 0 <= k && k < len(s) ==> s[k] == predLower(s[k])
 //@ define predOriginEq(s string, o string) bool = len(s) == len(o) && (forall k int :: 0 <= k && k < len(s) ==> s[k] == predLower(o[k]))
 
 //@ func matchesOrigins
@@ -329,10 +331,29 @@ var _ rpc.Resources
 
 // --- configuration (C14, C17) ---
 
+// toLowerASCII lowers exactly the bytes A-Z and keeps every other byte (no rune decoding).
+//@ func toLowerASCII
+//@   ensures[C17] len(result) == len(s) && (forall k int :: 0 <= k && k < len(s) ==> result[k] == predLower(s[k]))
+//@   assigns alloc()
+//@   safety[C15]
+//@   loop 1 invariant 0 <= i && i <= len(s) && len(sbuf(&b)) == i && (forall k int :: 0 <= k && k < i ==> sbuf(&b)[k] == predLower(s[k]))
+
+// validateAllowOrigin: every entry it has looked at is replaced by its ASCII-lowercase form
+// (matchesOrigins lowers only the request's origin), and an accepted list is either exactly
+// ["*"] or has no "*" and no empty entry.
 //@ func validateAllowOrigin
-//@   trusted
-//@   ensures len(s) == old(len(s))
+//@   ensures[C17] len(s) == old(len(s))
+//@   ensures[C17] result == nil ==> (forall j int :: 0 <= j && j < len(s) ==> len(s[j]) == old(len(s[j])) &&
+//@       (forall k int :: 0 <= k && k < len(s[j]) ==> s[j][k] == predLower(old(s[j])[k])))
+//@   ensures[C17] result == nil ==> (forall j int :: 0 <= j && j < len(s) ==> s[j] != "" && (s[j] == "*" ==> len(s) == 1))
+//@   ensures[C17] result == nil ==> (forall j int :: 0 <= j && j < len(s) ==> predLowered(s[j]))
 //@   assigns elems(s)
+//@   safety[C15]
+//@   loop 1 invariant len(s) == old(len(s))
+//@   loop 1 invariant forall j int :: 0 <= j && j < rangeidx1 ==> len(s[j]) == old(len(s[j])) && (forall k int :: 0 <= k && k < len(s[j]) ==> s[j][k] == predLower(old(s[j])[k]))
+//@   loop 1 invariant forall j int :: rangeidx1 <= j && j < len(s) ==> s[j] == old(s[j])
+//@   loop 1 invariant forall j int :: 0 <= j && j < rangeidx1 ==> s[j] != "" && (s[j] == "*" ==> len(s) == 1)
+//@   loop 1 invariant forall j int :: 0 <= j && j < rangeidx1 ==> predLowered(s[j])
 
 // prepare: a configuration is accepted only if the header-auth settings are valid resource
 // methods (valid resource id without query, valid method part) and the mapped PUT/DELETE/PATCH
@@ -345,6 +366,8 @@ var _ rpc.Resources
 //@   ensures[C14] result == nil && c.DELETEMethod != nil ==> codec.predValidPart(*c.DELETEMethod)
 //@   ensures[C14] result == nil && c.PATCHMethod != nil ==> codec.predValidPart(*c.PATCHMethod)
 //@   ensures[C17] result == nil ==> len(c.allowOrigin) > 0
+//@   ensures[C17] result == nil ==> (forall j int :: 0 <= j && j < len(c.allowOrigin) ==> predLowered(c.allowOrigin[j]))
+//@   assert[C17] sort.Strings#1: forall j int :: 0 <= j && j < len(c.allowOrigin) ==> predLowered(c.allowOrigin[j])
 //@   safety[C15]
 
 // SetVersion never panics and accepts only protocol versions 1.x.y.
